@@ -47,6 +47,7 @@ def prepare(tier):  # pylint: disable=unused-argument
     c13.prepare(tier)
     set_field_sites()
     shared_field_groups()
+    accepted_sweep_list()
     return {'phase': 'history'}
 
 
@@ -354,6 +355,10 @@ def _members_for(path, field, value):
 
 def generate(rng, index, tier, extra):  # pylint: disable=unused-argument
     phase = (extra or {}).get('phase', 'history')
+    if phase == 'accepted':
+        seeds = accepted_sweep_list()
+        path, hexdata = seeds[index % len(seeds)]
+        return {'kind': 'accsweep', 'cls': path, 'hex': hexdata}
     if phase == 'hashseed':
         return {'kind': 'hashseed', 'subject': hash_subjects()[index], 'seeds': list(HASH_SEEDS[tier])}
     roll = rng.random()
@@ -384,7 +389,7 @@ def generate(rng, index, tier, extra):  # pylint: disable=unused-argument
 def needs_isolation(doc):
     # everything that renders runs in a forked child: rendering may leave class-level state behind, which must
     # not leak from one run into the next ('enchistory' forks its own children, 'hashseed' spawns interpreters)
-    return doc['kind'] in ('history', 'setorder')
+    return doc['kind'] in ('history', 'setorder', 'accsweep')
 
 
 def execute(doc):
@@ -398,11 +403,94 @@ def execute(doc):
         _exec_hashseed(doc, res)
     elif kind == 'hashtable':
         _exec_hashtable(doc, res)
+    elif kind == 'accsweep':
+        _exec_accsweep(doc, res)
     elif kind == 'enchistory':
         _exec_enchistory(doc, res)
     else:
         raise core.HarnessError('unknown schedule kind %r' % kind)
     return res
+
+
+_ACCEPTED_SWEEP = None
+
+
+def accepted_sweep_list():
+    global _ACCEPTED_SWEEP  # pylint: disable=global-statement
+    if _ACCEPTED_SWEEP is None:
+        out = []
+        for path in corpus.class_paths():
+            cls = corpus.resolve(path)
+            if not (hasattr(cls, 'as_json') or hasattr(cls, '_asdict') or hasattr(cls, 'as_markdown')):
+                continue
+            seeds = corpus.accepted(path)[:4]
+            seeds += [raw for raw in corpus.variants(path) if raw not in seeds][:3]
+            for raw in seeds:
+                if 4 <= len(raw) <= 8192:
+                    out.append((path, raw.hex()))
+        _ACCEPTED_SWEEP = out
+    return _ACCEPTED_SWEEP
+
+
+def _value_spans(raw):
+    from simverif import wirefault
+    if not wirefault.is_text(raw):
+        return wirefault.length_prefixed_spans(raw, limit=32)
+    spans = []
+    start = 0
+    for idx, byte in enumerate(raw + b';'):
+        if byte in b':=;, \r\n"':
+            if idx - start >= 2:
+                spans.append((start, idx - start))
+            start = idx + 1
+    return spans[:32]
+
+
+def _exec_accsweep(doc, res):
+    """Every value of an accepted input (length-prefixed span of a binary input, token of a text input) replaced,
+    one at a time, by text of other alphabets and by integer boundary values of the same length; whatever the
+    parser still accepts must serialise: totally and well-formed."""
+    from simverif import wirefault
+    cls = corpus.resolve(doc['cls']) or core.get_class(doc['cls'])
+    raw = bytes.fromhex(doc['hex'])
+    only = doc.get('only')
+    if only is not None:
+        plan = only
+    else:
+        plan = [[start, length, name] for start, length in _value_spans(raw)
+                for name in sorted(wirefault.TEXT_FILLS) + ['zero', 'ones']]
+        # ... and every single octet overwritten (all five values for small inputs, two for large ones)
+        values = ('b00', 'b01', 'b7f', 'b80', 'bff') if len(raw) <= 600 else ('b01', 'bff')
+        plan += [[offset, 1, name] for offset in range(len(raw)) for name in values]
+    accepted = 0
+    for start, length, name in plan:
+        if name.startswith('b') and len(name) == 3:
+            fill = bytes((int(name[1:], 16), ))
+        else:
+            fill = wirefault.TEXT_FILLS[name](length) if name in wirefault.TEXT_FILLS else (b'\x00' if name == 'zero' else b'\xff') * length
+        data = raw[:start] + fill + raw[start + length:]
+        if data == raw:
+            continue
+        try:
+            obj = cls.parse_immutable(data)[0]
+        except (core.RunTimeout, KeyboardInterrupt, SystemExit):
+            raise
+        except BaseException:  # rejected (or leaking: C02's concern)  # pylint: disable=broad-except
+            continue
+        accepted += 1
+        before = len(res.violations)
+        _wellformed(res, type(obj).__name__, serialise(obj))
+        for violation in res.violations[before:]:
+            violation['case'] = [start, length, name]
+        if len(res.violations) > 3:
+            break
+    res.event('accsweep', doc['cls'], len(plan), accepted)
+    res.sim_events += len(plan)
+    res.stats['accepted_sweep.cases'] += len(plan)
+    res.stats['accepted_sweep.accepted_and_serialised'] += accepted
+    res.stats['serialisations'] += accepted
+    res.sched_sig = ('accsweep', doc['cls'].rsplit('.', 1)[1], doc['hex'][:16], accepted > 0)
+    res.nontrivial = accepted > 0
 
 
 def _exec_history(doc, res):  # pylint: disable=too-many-branches,too-many-statements
@@ -901,6 +989,14 @@ def hash_phase(tier, seed):
 def shrink(doc, sig, budget):
     me = __import__('simverif.props.c14', fromlist=['x'])
     doc = dict(doc)
+    if doc['kind'] == 'accsweep':
+        result = core.guarded_execute(me, doc)
+        for violation in result.violations:
+            if violation['sig'] == sig and 'case' in violation:
+                cand = dict(doc, only=[violation['case']])
+                if core.has_sig(me, cand, sig):
+                    return cand
+        return doc
     if doc['kind'] == 'history':
         def test_subjects(subjects):
             cand = dict(doc, subjects=subjects, order2=list(reversed(range(len(subjects)))))
@@ -924,7 +1020,8 @@ def check(tier, seed):
     hashed = hash_phase(tier, seed)
     n_runs, wall = BUDGET[tier]
     explore = core.run_batch(me, seed, tier, n_runs, wall, extra)
-    batch = core.merge_batches([hashed, explore, histories])
+    swept = core.run_batch(me, seed, tier, len(accepted_sweep_list()), 600.0, {'phase': 'accepted'}, chunk=4)
+    batch = core.merge_batches([hashed, swept, explore, histories])
     coverage = core.coverage_from_batch(
         batch, RULE,
         fault_kinds=('fresh_interpreter_other_hash_seed', 'insertion_order_permuted', 'encoder_switched_between_passes'),
